@@ -26,5 +26,6 @@ fi
 VERIF_ROOT="$S/root" VERIF_SEED="$SEED" "$S/vcheck" run -prop "$PROP" -tier "$TIER" "${RACE[@]}" 2>"$S/stderr.txt"
 rc=$?
 head -c 3000 "$S/stderr.txt"
+echo; grep -o '^--- C[0-9]* key=[^ ]*' "$S/stderr.txt" | sed 's/^--- C[0-9]* /VKEY /' | sort -u
 echo "exit=$rc"
 exit $rc
